@@ -19,7 +19,9 @@ def scenarios(rng, tier):
             descs = []
             for j in range(nd):
                 dst = B if rng.random() < 0.75 else rng.choice([mac(77), BCAST, A])
-                descs.append((rng.choice([0, 1]), rng.choice([0, 1, 20]), rng.choice([A, mac(1000 + 10 * rnd + j), mac(2000 + j)]) if rng.random() < 0.8 else A, dst))
+                src_ = rng.choice([A, mac(1000 + 10 * rnd + j), mac(2000 + j)]) if rng.random() < 0.8 else A
+                if k % 4 == 3: src_ = TWINS[(j + 3 * rnd) % 7]              # emitted sources that differ in a single octet
+                descs.append((rng.choice([0, 1]), rng.choice([0, 1, 20]), src_, dst))
             if rng.random() < 0.4: s.frame(1, probe(mac(500), B, mac(500), B))          # unrelated observation at B
             if rng.random() < 0.3: s.frame(1, reset(mac(rng.choice([1, 9])), tos=1))       # a quick-discovery Reset seen by B: the observation log must not care
             if rng.random() < 0.15: s.frame(1, hello(mac(9), tos=1))
